@@ -154,6 +154,11 @@ def run(ck, F):
                          f'parameter(s) {missing} of {fid} are not stored in the returned node (path `{p["when"][:80]}`)',
                          loc=f['loc'], fn=fid)
         want = table.get(fid)
+        if fid.startswith('ipr::impl::type_factory::get_qualified('):
+            # the documented normal form (qualifier merging) is a permitted difference of this property: what get_qualified answers
+            # is judged by the merge rule (evaluated, independent of how the flattening is written), not by the frozen table
+            ck.ok(R_paths, sid, detail='normal form: judged by C02.merge')
+            continue
         if want is None:
             unconfirmed.append(sid)
             continue
@@ -213,6 +218,8 @@ def run(ck, F):
             K.factory(F.fn[fid])
             nuni += 1
     K.finish_cover()
+    import c11
+    c11.merge_rule_for(ck, F, 'C02')
     K.finish_partial(())
     for r in (K.R_diag, K.R_lex):
         ck.rules[r]['floor'] = 30
